@@ -12,7 +12,7 @@
    The correspondence run evaluates key_move_b (it must be true) on every legal move it generates; that every legal move
    of every position of D passes it is not proved. *)
 From Coq Require Import NArith ZArith List Bool.
-From Rawr Require Import Consts Bits Magic Position MoveGen MakeMove MakeStages Rules Abs KeySpec KeyFacts HashFacts KeyAbs KeyMove GenSane Closure.
+From Rawr Require Import Consts Bits Magic Position MoveGen MakeMove MakeStages Rules Abs KeySpec KeyFacts HashFacts KeyAbs KeyMove GenSane Closure ClosureNull.
 Import ListNotations.
 Local Open Scope N_scope.
 
@@ -72,6 +72,15 @@ Theorem C04_key_invariant_along_every_sequence : forall ms p, Inv p -> legal_seq
   hash q = calculate_hash q /\ calculate_hash q = KeySpec.spec_key (abs_state q).
 Proof. exact run_keys. Qed.
 
+(* ---- the property's first sentence: after any sequence of generated legal moves AND null moves (the side passing not in
+   check) from a position satisfying the invariant, the maintained key is the recomputed key, which is the specification's
+   key of the abstract state reached -- a function of placement, side to move, rights held and en-passant file only
+   (C04_key_is_a_function_of_the_position), hence independent of the order of moves, the counters and the frame *)
+Theorem C04_key_invariant_along_moves_and_null_moves : forall os p, Inv p -> legal_ops p os ->
+  let q := fold_left play_op os p in
+  hash q = calculate_hash q /\ calculate_hash q = KeySpec.spec_key (abs_state q).
+Proof. exact ops_keys. Qed.
+
 Print Assumptions C04_key_min_distance.
 Print Assumptions C04_makenull_hash.
 Print Assumptions C04_key_table_size.
@@ -81,3 +90,4 @@ Print Assumptions C04_makemove_stores_prediction.
 Print Assumptions C04_key_invariant_step.
 Print Assumptions C04_every_generated_move_keeps_the_key.
 Print Assumptions C04_key_invariant_along_every_sequence.
+Print Assumptions C04_key_invariant_along_moves_and_null_moves.
